@@ -59,6 +59,9 @@ def run(ctx, rep):
     rep.rule('R01.13', 'every variable of a function has a slot of its own in the activation: the frame size packed into the function value counts every parameter and local')
     from rules import c02 as _c02
     _c02.check_frame_size(ctx, rep, 'R01.13')
+    rep.rule('R01.14', 'a name means a variable of the function being compiled or a global, never a slot of an enclosing function: the lookup consults exactly the current context and the global one')
+    from rules import c09 as _c09v
+    _c09v.check_visibility(ctx, rep, 'R01.14')
     rep.rule('R01.9', 'a type error stays a type error on every path, fast paths included: a value is decoded only as what it is: every as_int / as_bool / as_function is preceded on every path by a test that the object has that tag (the decoders only shift the word: `ja` would read as 1, null as 0)')
     from rules import unsafe_inv as _ui
     _ui.check_immediates(ctx, rep, 'R01.9')
